@@ -1,0 +1,31 @@
+//go:build verif
+
+package tq
+
+import "time"
+
+// VerifConcat runs batch.Concat for the verification harness (only with
+// `-tags verif`): the receiver and `other` are given as ready times relative
+// to now (milliseconds, negative = already ready); the result lists the
+// positions (0-based over receiver followed by other) that went left and right.
+func VerifConcat(b, other []int64, size int) (left, right []int) {
+	now := time.Now()
+	idx := map[*objectTuple]int{}
+	mk := func(offs []int64, base int) batch {
+		var out batch
+		for i, o := range offs {
+			ot := &objectTuple{Oid: "x", ReadyTime: now.Add(time.Duration(o) * time.Millisecond)}
+			idx[ot] = base + i
+			out = append(out, ot)
+		}
+		return out
+	}
+	l, r, _ := mk(b, 0).Concat(mk(other, len(b)), size)
+	for _, ot := range l {
+		left = append(left, idx[ot])
+	}
+	for _, ot := range r {
+		right = append(right, idx[ot])
+	}
+	return
+}
